@@ -550,6 +550,64 @@ func init() {
 	intrinsics["os.Getenv"] = func(ex *Exec, fr *frame, fn *ssa.Function, args []Value) Value {
 		return ex.emptyView()
 	}
+	// errors.Is / errors.Unwrap: the standard loop (identity, then an Is method, then Unwrap), with the dynamic-type
+	// questions answered from the interface value instead of through reflectlite
+	errMethod := func(ex *Exec, iv Iface, name string) *ssa.Function {
+		if iv.T == nil {
+			return nil
+		}
+		ms := ex.prog.MethodSets.MethodSet(iv.T)
+		for i := 0; i < ms.Len(); i++ {
+			if sel := ms.At(i); sel.Obj().Name() == name {
+				return ex.prog.MethodValue(sel)
+			}
+		}
+		return nil
+	}
+	unwrapOnce := func(ex *Exec, fr *frame, iv Iface) (Iface, bool) {
+		f := errMethod(ex, iv, "Unwrap")
+		if f == nil || f.Signature.Params().Len() != 0 || f.Signature.Results().Len() != 1 {
+			return Iface{}, false
+		}
+		if _, isSlice := f.Signature.Results().At(0).Type().Underlying().(*types.Slice); isSlice {
+			panic(unsupported{"errors.Is over Unwrap() []error"})
+		}
+		r, ok := ex.call(fr, f, []Value{iv.V}).(Iface)
+		return r, ok
+	}
+	intrinsics["errors.Unwrap"] = func(ex *Exec, fr *frame, fn *ssa.Function, args []Value) Value {
+		iv, _ := args[0].(Iface)
+		if r, ok := unwrapOnce(ex, fr, iv); ok {
+			return r
+		}
+		return Iface{}
+	}
+	intrinsics["errors.Is"] = func(ex *Exec, fr *frame, fn *ssa.Function, args []Value) Value {
+		err, _ := args[0].(Iface)
+		target, _ := args[1].(Iface)
+		errT := fn.Signature.Params().At(0).Type()
+		for depth := 0; depth < 16; depth++ {
+			if err.T == nil {
+				return ex.c.Bool(target.T == nil)
+			}
+			if target.T != nil && types.Comparable(target.T) && types.Identical(err.T, target.T) {
+				if ex.branch(ex.valEq(errT, err, target)) {
+					return ex.c.True
+				}
+			}
+			if f := errMethod(ex, err, "Is"); f != nil && f.Signature.Params().Len() == 1 && f.Signature.Results().Len() == 1 {
+				if r, ok := ex.call(fr, f, []Value{err.V, target}).(*T); ok && ex.branch(r) {
+					return ex.c.True
+				}
+			}
+			next, ok := unwrapOnce(ex, fr, err)
+			if !ok {
+				return ex.c.False
+			}
+			err = next
+		}
+		panic(unsupported{"errors.Is: chain deeper than 16"})
+	}
 	intrinsics["os.Getpid"] = func(ex *Exec, fr *frame, fn *ssa.Function, args []Value) Value {
 		return ex.intConst(4242)
 	}
